@@ -81,6 +81,7 @@ def canon_mod(name):
 
 class Domain:
     skip_logging = True
+    skip_dead_stores = True
     allow_unbounded_loops = False
 
     def __init__(self, run, lib=None):
@@ -468,7 +469,9 @@ class Domain:
         if ok:
             run.oblige("frame::write_is_local", True, props=("FRAME",), backend="frame")
         else:
-            run.oblige(name, False, props=("FRAME", "FRAME:" + reg), backend="frame",
+            esc = tuple("ESC:" + w for w in sorted(run.ghost.get("escaped_to", {}).get(ref, ()))) \
+                if reg == "escaped" else ()
+            run.oblige(name, False, props=("FRAME", "FRAME:" + reg) + esc, backend="frame",
                        info=f"{what}: in-place write to an array owned by '{reg}' "
                             f"({run.tags.get(ref, 'untagged')}) at {run.site}")
         if ref in run.frozen:
@@ -485,6 +488,7 @@ class Domain:
             if v.ref in seen:
                 return
             seen.add(v.ref)
+            run.ghost.setdefault("escaped_to", {}).setdefault(v.ref, set()).add(why)
             if run.region.get(v.ref) == "local":
                 run.region[v.ref] = "escaped"
                 run.tags[v.ref] = why
@@ -523,9 +527,13 @@ class Domain:
             return self.call_user(f, args, kw, site)
         if isinstance(f, ExcClass):
             return ExcV(f.name, args)
+        if isinstance(f, (Sym, Arr, Obj, DequeV)):
+            raise PyExc(self.make_exc("TypeError", (f"'{type(f).__name__}' object is not callable",)))
         raise Unsupported(f"call of {f!r}")
 
     def call_native_with_models(self, f, args, kw, site=None):
+        if not callable(f):
+            raise PyExc(self.make_exc("TypeError", (f"'{type(f).__name__}' object is not callable",)))
         raise Unsupported(f"native callable {f!r} applied to symbolic values")
 
     def call_user(self, fn, args, kw, site=None):
@@ -538,7 +546,7 @@ class Domain:
         snap = tuple(self.snapshot(a) for a in args)
         run.log.append(("user_call", fn.name, snap, run.site))
         for a in list(args) + list(kw.values()):
-            self.escape(a, f"argument of user callable {fn.name}")
+            self.escape(a, fn.name)
         if self.user_may_raise:
             if run.choose(f"raise:{fn.name}", 2) == 1:
                 exc = ExcV(None, (), tag=("user", fn.name, run.site, cnt[fn.name] if not isinstance(cnt[fn.name], Sym) else "k"))
@@ -574,6 +582,9 @@ class Domain:
             if full in ("np.inf",):
                 return INF if run.mode == "real" else INF
             if full == "np.pi":
+                if run.mode == "cas":
+                    import sympy
+                    return sympy.pi
                 import math
                 return math.pi
             if full == "np.nan":
@@ -655,6 +666,10 @@ class Domain:
         if isinstance(a, (list, tuple)) and isinstance(b, Sym) or isinstance(b, (list, tuple)) and isinstance(a, Sym):
             # python list of scalars mixed with a symbolic scalar: numpy would broadcast (rHat + scalar*array)
             return self.lib_call("arr:binop", [op, a, b, inplace], {})
+        if isinstance(a, (UserFn, Closure, LibFn, ClassV)) or isinstance(b, (UserFn, Closure, LibFn, ClassV)) \
+                or a is None or b is None:
+            raise PyExc(self.make_exc("TypeError", (f"unsupported operand type(s) for {op}: "
+                                                    f"'{type(a).__name__}' and '{type(b).__name__}'",)))
         if isinstance(a, MODEL_NUM) or isinstance(b, MODEL_NUM):
             return self.lib_call("arr:binop", [op, a, b, inplace], {})
         raise Unsupported(f"binary {op} on {type(a).__name__}, {type(b).__name__} at {self.run.site}")
@@ -679,6 +694,10 @@ class Domain:
                     return op == "NotEq"
                 r = a == b
                 return r if op == "Eq" else not r
+        if op in ("Lt", "Gt", "LtE", "GtE") and (isinstance(a, (UserFn, Closure, Obj, LibFn, ClassV)) or a is None
+                                                  or isinstance(b, (UserFn, Closure, Obj, LibFn, ClassV)) or b is None):
+            raise PyExc(self.make_exc("TypeError", (f"'{op}' not supported between instances of "
+                                                    f"'{type(a).__name__}' and '{type(b).__name__}'",)))
         raise Unsupported(f"comparison {op} on {type(a).__name__}, {type(b).__name__} at {self.run.site}")
 
     def contains(self, container, item):
